@@ -409,6 +409,24 @@ Definition round (vb vs : version) (e : env) (nodes : list N)
   : list (list swap_out * list (N * shard_md)) :=
   round_loop vb vs e nodes snap reqs (snap_state snap) [] [].
 
+(* Rounds one after the other, with the round barrier of rebalanceEnsemble (swapGroup.Wait(): a round returns only
+   when the action worker has applied every action it proposed, and the next round loads the status again): the
+   snapshot of the next round is the metadata the previous round left.  Between proposal and application the
+   actions sit in the balancer's action channel; because every proposal of a round is computed from the snapshot
+   only (never from the live metadata), "propose all, then apply in order" is what [round_loop] computes. *)
+Definition resnap (snap : list (N * (list rule * list N))) (st : list (N * shard_md))
+  : list (N * (list rule * list N)) :=
+  map (fun pq => (fst (fst pq), (fst (snd (fst pq)), m_ens (snd (snd pq))))) (combine snap st).
+
+Fixpoint rounds_from (e : env) (nodes : list N) (snap : list (N * (list rule * list N)))
+         (reqss : list (list (N * N))) : list (list (N * (list rule * list N))) :=
+  match reqss with
+  | [] => [snap]
+  | reqs :: tl =>
+    flat_map (fun r => rounds_from e nodes (resnap snap (snd r)) tl)
+             (round Fixed Fixed e nodes snap reqs)
+  end.
+
 (* applying an arbitrary action list (shard, from, to) *)
 Definition apply_actions (v : version) (st : list (N * shard_md)) (acts : list (N * N * N))
   : list (N * shard_md) :=
